@@ -34,7 +34,7 @@ def items(tier):
                     out.append((sp, {"rule": "TSLACK", "auto_abs": aa, "max_time": F.seq_bound(sp) + 8}))
     for sp in F.fac_specs(tier):
         out.append((sp, {"rule": "TSLACK", "max_time": F.seq_bound(sp) + 8}))
-    for sp in F.auto_component_specs():
+    for sp in F.auto_component_specs() + F.nested_running_specs() + F.nested_order_specs():
         for aa in (False, True):
             out.append((sp, {"rule": "TSLACK", "auto_abs": aa, "max_time": F.seq_bound(sp) + 12}))
     for k in (3, 4, 5, 7):
